@@ -1,2 +1,9 @@
 -- Root of the `LyModel` library: every model, lemma and property file.
 import LyModel.Base
+import LyModel.Drv
+import LyModel.Props.C01
+import LyModel.Props.C12
+import LyModel.Props.C18
+import LyModel.Props.C03
+import LyModel.Props.C15
+import LyModel.Props.C01Lyb
